@@ -76,17 +76,19 @@ def one(rep, prog, cfg):
                 s["k"] == "assign" and s["rv"]["k"] == "agg" and s["rv"].get("adt_name", "").endswith("responses::song::SongInQueue")
                 for _, _, s in b.stmts())]
     fin = body_by_name(prog, B + "finish")
-    for name, l in (("handle_song_field", hs), ("handle_start_field", st), ("is_start_field", isf), ("field", fld),
+    for name, l in (("handle_song_field", hs), ("handle_start_field", st), ("field", fld),
                     ("into_song", into), ("finish", fin)):
         if len(l) != 1:
             rep.fail("C14.anchor", "%s/%s" % (cfg, name), "song.rs", "SongBuilder machinery changed: %s not found exactly once" % name)
             return
-    hs, st, isf, fld, into, fin = hs[0], st[0], isf[0], fld[0], into[0], fin[0]
+    # the entry-boundary predicate may be a function of its own or be folded into the handler's match: optional
+    isf = isf[0] if len(isf) == 1 else None
+    hs, st, fld, into, fin = hs[0], st[0], fld[0], into[0], fin[0]
     INTO = norm(into.name)
     # parts of the per-field handling may be private methods of the builder (e.g. the tag arm, the legacy Time arm, the
     # "take the finished song" step): analyse the handlers with those spliced in (A12); the handlers themselves and the
     # conversion into a song stay calls, the rules below look for them
-    keep = {norm(x.name) for x in (hs, st, isf, fld, into, fin)}
+    keep = {norm(x.name) for x in (hs, st, isf, fld, into, fin) if x is not None}
     hs = inlined(prog, hs, same_impl_helpers(hs, exclude=keep))
     st = inlined(prog, st, same_impl_helpers(st, exclude=keep))
     if hs.raw.get("inlined") or st.raw.get("inlined"):
@@ -152,53 +154,54 @@ def one(rep, prog, cfg):
                   % (k, INTO in calls, (B + "handle_start_field") in calls, sorted(got[k])))
 
     # ---- C14.boundary: is_start_field ⊆ accepted by handle_start_field; only file sets url -----------
-    icmps = tables.str_compares(isf, branchless=True)
-    icases, icells = tables.string_cases(isf, icmps, extra_cells=ENTRY_STARTS)
-    accepts = set()
-    for cell in icells:
-        vals = set()
-        cmp_dest = {c["dest"]: c for c in icmps}
-        for bb in icases[cell]:
-            for s in isf.blocks[bb]["s"]:
-                if s["k"] == "assign" and s["place"]["l"] == 0 and s["rv"]["k"] == "use":
-                    c = op_const(s["rv"]["op"])
-                    if c is not None and c["ty"] == "bool":
-                        vals.add(bool(c.get("int")))
-                    elif op_local(s["rv"]["op"]) in cmp_dest:
-                        # `a == "x" || .. || f == "z"`: the last comparison's result is the value
-                        cc = cmp_dest[op_local(s["rv"]["op"])]
-                        vals.add(cell != tables.OTHER and (cc["lit"].lower() == cell.lower() if cc["ci"] else cc["lit"] == cell))
-            t = isf.blocks[bb]["t"]
-            if t["k"] == "call" and t["dest"]["l"] == 0 and not t["dest"]["p"] and bb in {c["bb"] for c in icmps}:
-                cc = [c for c in icmps if c["bb"] == bb][0]
-                vals.add(cell != tables.OTHER and (cc["lit"].lower() == cell.lower() if cc["ci"] else cc["lit"] == cell))
-        if vals == {True}:
-            accepts.add(cell)
-        elif vals != {False} and icmps:
-            rep.fail("C14.boundary", "%s/is_start_field(%s)" % (cfg, cell if cell != tables.OTHER else "other"), isf.loc(isf.span),
-                     "cannot decide the boundary predicate for this key (values %s)" % vals)
-    if not icmps:
-        # membership form: `[<constants>].contains(&f)` whose result is the function's result
-        from .. import terms
-        from ..common import const_value_of
-        for bb, t in isf.calls():
-            if any(n.endswith("<impl [T]>::contains") for n in callee_names(t)) and len(t["args"]) == 2 and t["dest"]["l"] == 0 and not t["dest"]["p"]:
-                arr = terms.strip_views(terms.term_of_local(isf, op_local(t["args"][0]))) if op_local(t["args"][0]) is not None else None
-                while isinstance(arr, tuple) and arr[0] == "unknown":
-                    break
-                needle, tr = terms.raw_source(isf, t["args"][1])
-                # the array: an aggregate of string constants (through the unsizing cast)
-                elems = None
-                for bb2, i2, s2 in isf.stmts():
-                    if s2["k"] == "assign" and s2["rv"]["k"] == "agg" and s2["rv"].get("agg") == "array":
-                        vals = [const_value_of(prog, isf, o) for o in s2["rv"]["ops"]]
-                        if all(v is not None for v in vals):
-                            elems = set(vals)
-                if elems is not None and needle == ("free", 1) and not tr:
-                    accepts = elems
-    rep.check(accepts == ENTRY_STARTS, "C14.boundary", cfg + "/is_start_field set", isf.loc(isf.span),
-              "entry boundaries are %s, the protocol says %s" % (sorted(accepts), sorted(ENTRY_STARTS)),
-              detail={"accepts": sorted(accepts)})
+    if isf is not None:
+        icmps = tables.str_compares(isf, branchless=True)
+        icases, icells = tables.string_cases(isf, icmps, extra_cells=ENTRY_STARTS)
+        accepts = set()
+        for cell in icells:
+            vals = set()
+            cmp_dest = {c["dest"]: c for c in icmps}
+            for bb in icases[cell]:
+                for s in isf.blocks[bb]["s"]:
+                    if s["k"] == "assign" and s["place"]["l"] == 0 and s["rv"]["k"] == "use":
+                        c = op_const(s["rv"]["op"])
+                        if c is not None and c["ty"] == "bool":
+                            vals.add(bool(c.get("int")))
+                        elif op_local(s["rv"]["op"]) in cmp_dest:
+                            # `a == "x" || .. || f == "z"`: the last comparison's result is the value
+                            cc = cmp_dest[op_local(s["rv"]["op"])]
+                            vals.add(cell != tables.OTHER and (cc["lit"].lower() == cell.lower() if cc["ci"] else cc["lit"] == cell))
+                t = isf.blocks[bb]["t"]
+                if t["k"] == "call" and t["dest"]["l"] == 0 and not t["dest"]["p"] and bb in {c["bb"] for c in icmps}:
+                    cc = [c for c in icmps if c["bb"] == bb][0]
+                    vals.add(cell != tables.OTHER and (cc["lit"].lower() == cell.lower() if cc["ci"] else cc["lit"] == cell))
+            if vals == {True}:
+                accepts.add(cell)
+            elif vals != {False} and icmps:
+                rep.fail("C14.boundary", "%s/is_start_field(%s)" % (cfg, cell if cell != tables.OTHER else "other"), isf.loc(isf.span),
+                         "cannot decide the boundary predicate for this key (values %s)" % vals)
+        if not icmps:
+            # membership form: `[<constants>].contains(&f)` whose result is the function's result
+            from .. import terms
+            from ..common import const_value_of
+            for bb, t in isf.calls():
+                if any(n.endswith("<impl [T]>::contains") for n in callee_names(t)) and len(t["args"]) == 2 and t["dest"]["l"] == 0 and not t["dest"]["p"]:
+                    arr = terms.strip_views(terms.term_of_local(isf, op_local(t["args"][0]))) if op_local(t["args"][0]) is not None else None
+                    while isinstance(arr, tuple) and arr[0] == "unknown":
+                        break
+                    needle, tr = terms.raw_source(isf, t["args"][1])
+                    # the array: an aggregate of string constants (through the unsizing cast)
+                    elems = None
+                    for bb2, i2, s2 in isf.stmts():
+                        if s2["k"] == "assign" and s2["rv"]["k"] == "agg" and s2["rv"].get("agg") == "array":
+                            vals = [const_value_of(prog, isf, o) for o in s2["rv"]["ops"]]
+                            if all(v is not None for v in vals):
+                                elems = set(vals)
+                    if elems is not None and needle == ("free", 1) and not tr:
+                        accepts = elems
+        rep.check(accepts == ENTRY_STARTS, "C14.boundary", cfg + "/is_start_field set", isf.loc(isf.span),
+                  "entry boundaries are %s, the protocol says %s" % (sorted(accepts), sorted(ENTRY_STARTS)),
+                  detail={"accepts": sorted(accepts)})
     scases, scells = tables.string_cases(st, extra_cells=ENTRY_STARTS)
     sselfs = self_aliases(st)
     scommon = set.intersection(*scases.values())
